@@ -183,6 +183,12 @@ def l2_violation(unit, mn, pv, sheet, O, R, m, kind, text, sig):
     deck = su.deck_for_surface([card], data_lines=dk.wrap(trline))
     if kind == 'noraise':
         case = {'kind': 'noraise', 'property': PROP, 'deck': deck, 'unit': unit}
+        d0 = replay_dir(PROP, case)
+        ok0, out0 = run_replay(d0)
+        if not ok0:
+            # with real floats NumPy does not raise on 0/0: the run may finish and WRITE the nan/inf
+            case = {'kind': 'validate', 'property': PROP, 'deck': deck, 'unit': unit}
+            sig = dict(sig, kind='non-finite-output')
     else:
         case = {'kind': 'surface', 'property': PROP, 'deck': deck, 'unit': unit, 'point': [dec(v) for v in pt],
                 'ref': {'mnemonic': mn, 'params': [dec(v) for v in vals], 'tr': [dec(v) for v in trv]},
@@ -286,8 +292,7 @@ def run_l1(task):
             if r == 'unsat':
                 res['discharged'] += 1
             else:
-                res['violations'].append({'signature': {'kind': 'card-exception', 'pattern': pattern}, 'replay': '-',
-                                          'text': '%s: valid TR card "%s" raises %r' % (unit, card, path.value)})
+                res['violations'].append(l1_violation(unit, pattern, card, base, ['raises %r' % (path.value,)], [], kind='card-exception'))
             continue
         out = [SymReal(v) for v in path.value]
         bad = []
@@ -323,13 +328,71 @@ def run_l1(task):
         elif all(b.startswith('?') for b in bad):
             res['inconclusive'].append('%s: %s undecided' % (unit, bad))
         else:
-            res['violations'].append({'signature': {'kind': 'card', 'pattern': pattern, 'what': [b for b in bad if not b.startswith('?')][0].split(' ')[0]},
-                                      'replay': '-', 'text': '%s: card "tr7 %s" -> %s fails: %s' % (unit, card, [repr(o)[:40] for o in out], bad)})
+            res['violations'].append(l1_violation(unit, pattern, card, base, bad, [repr(o)[:40] for o in out]))
     res['queries'] = ENG.nqueries - q0
     res['solver_s'] = ENG.solver_s - s0
     res['wall'] = time.time() - t0
     ENG.timeout_ms = 20000
     return res
+
+
+L1_SNIPPET = '''
+import warnings
+warnings.simplefilter('ignore')
+import MIP.geom.transforms as mtr
+from t4_geom_convert.Kernel.Transformation.Transformation import normalize_transform
+card = %r
+supplied = %r          # {index in B1..B9: value}
+disp = %r
+name, pl = mtr.normalize_transform('7', 'tr', card)
+out = normalize_transform(pl)
+assert len(out) == 12, 'result has %%d entries' %% len(out)
+M = out[3:]
+for i in range(3):
+    assert abs(out[i] - disp[i]) < 1e-9, 'displacement changed: %%r' %% (out[:3],)
+for k, v in supplied.items():
+    assert abs(M[int(k)] - v) < 1e-7, 'supplied entry B%%d = %%r not reproduced: %%r' %% (int(k) + 1, v, M[int(k)])
+for i in range(3):
+    for j in range(i, 3):
+        d = sum(M[3*i+k] * M[3*j+k] for k in range(3))
+        assert abs(d - (1 if i == j else 0)) < 1e-7, 'rows %%d, %%d not orthonormal: %%r' %% (i, j, M)
+det = (M[0]*(M[4]*M[8]-M[5]*M[7]) - M[1]*(M[3]*M[8]-M[5]*M[6]) + M[2]*(M[3]*M[7]-M[4]*M[6]))
+assert abs(det - 1) < 1e-7, 'determinant is %%r, not +1: %%r' %% (det, M)
+'''
+
+
+def l1_violation(unit, pattern, card, base, bad, outrepr, kind='card'):
+    """concretise the card (model of the path), replay on the real functions."""
+    from ..common import unit_violation
+    from .. import stubs as _st
+    r, m = check_sat(base, 20000)
+    what = [b for b in bad if not b.startswith('?')][0].split(' ')[0]
+    sig = {'kind': kind, 'pattern': pattern, 'what': what}
+    if r != 'sat':
+        return {'signature': sig, 'replay': '-', 'text': '%s: %s (path not concretised)' % (unit, bad)}
+    toks = []
+    vals = []
+    for t in card.split():
+        suffix = ''
+        body = t
+        if t in _st.REG:
+            v = float(model_value(m, _st.REG[t]))
+            toks.append(repr(v))
+            vals.append(v)
+        elif t.endswith('j'):
+            toks.append(t)
+            vals += [None] * (int(t[:-1]) if len(t) > 1 else 1)
+        else:
+            toks.append(t)
+            vals.append(float(Fr(t)))
+    ccard = ' '.join(toks)
+    disp = vals[:3]
+    sup = {str(i): v for i, v in enumerate(vals[3:12]) if v is not None}
+    v = unit_violation(PROP, sig, '%s: card "tr7 %s" fails: %s' % (unit, ccard, bad), L1_SNIPPET % (ccard, sup, disp))
+    if v:
+        return v
+    return {'signature': dict(sig, kind=kind + '-not-replayed'), 'replay': '-',
+            'text': '%s: card "tr7 %s" -> %s fails symbolically (%s) but the float replay passes' % (unit, ccard, outrepr, bad)}
 
 
 # ------------------------------------------------------------------ layer 3
@@ -377,8 +440,9 @@ def trcl_deck(rnd):
     # a second cell bounded by the IMPLICIT transformed surface 1000*cell+surf of cell 1
     big = len(d.surfs) + 1
     d.surfs.append(dk.Surf(big, 'so', [Fr(20)]))
-    if rnd.random() < 0.6 and kind != 'rpp':
-        d.cells.append(dk.Cell(2, ('and', ('s', 1001), ('s', -big)) if kind in ('so', 'tz') else ('and', ('cell', 1), ('s', -big)), imp=1))
+    if rnd.random() < 0.6:
+        # the moved surface (elementary or macrobody) referenced from another cell by its implicit number
+        d.cells.append(dk.Cell(2, ('and', ('s', 1001), ('s', -big)) if kind in ('so', 'tz', 'rpp') else ('and', ('cell', 1), ('s', -big)), imp=1))
     else:
         d.cells.append(dk.Cell(2, ('and', ('cell', 1), ('s', -big)), imp=1))
     d.cells.append(dk.Cell(3, ('s', big), imp=0))
